@@ -408,6 +408,7 @@ pub fn shrink_candidates(s: &BScn) -> Vec<BScn> {
             }
         }
     }
+    out.retain(|c| c.cfg.tls.iter().all(simmodel::gen::merged_is_in_domain));
     out
 }
 
